@@ -83,9 +83,18 @@ TEasy == /\ E.e = "Easy" /\ Step /\ UNCHANGED <<cur, st, k>> /\ live' = FALSE
                           (IF E.ny <= cur.nc THEN {} ELSE {"dual-length"}) \cup
                           (IF E.sufbad = 0 THEN {} ELSE {"suffix-length"})
             IN (live /\ cur.mode = "easy" /\ wrong = {}) \/ Bad(IF wrong = {} THEN "order" ELSE "easy-" \o (CHOOSE w \in wrong : TRUE))
+\* a handler written against the C API, called through NLW2_Read2SOLHandler_C: it is offered no more option values
+\* than its fixed-size record holds (MAX_AMPL_OPTIONS = 9), no more dual / primal values than the declared sizes,
+\* and a failure comes with a message
+TCApi == /\ E.e = "CApi" /\ Step /\ UNCHANGED <<cur, st, k>> /\ live' = FALSE
+         /\ LET wrong == (IF E.nopt <= 9 THEN {} ELSE {"options-beyond-record"}) \cup
+                          (IF E.dualoff <= cur.nc THEN {} ELSE {"dual-offered-beyond-declared"}) \cup
+                          (IF E.primaloff <= cur.nv THEN {} ELSE {"primal-offered-beyond-declared"}) \cup
+                          (IF E.ok \/ E.hasmsg THEN {} ELSE {"error-without-message"})
+            IN (live /\ cur.mode = "capi" /\ wrong = {}) \/ Bad(IF wrong = {} THEN "order" ELSE "capi-" \o (CHOOSE w \in wrong : TRUE))
 TCrash == /\ E.e \in {"Crash", "Hang", "Throw"} /\ Step /\ UNCHANGED <<cur, st, k>> /\ live' = FALSE
           /\ Bad(IF E.e = "Crash" THEN "crash-" \o (IF "cls" \in DOMAIN E THEN E.cls ELSE "harness") ELSE IF E.e = "Throw" THEN "throw-" \o (IF "kind" \in DOMAIN E THEN E.kind ELSE "unknown") ELSE "hang")
-TOther == /\ E.e \notin (Callbacks \cup {"Result", "Case", "Crash", "Hang", "Throw", "Easy"})
+TOther == /\ E.e \notin (Callbacks \cup {"Result", "Case", "Crash", "Hang", "Throw", "Easy", "CApi"})
           /\ Step /\ UNCHANGED <<cur, st, k>>
           /\ live' = (IF E.e = "End" THEN FALSE ELSE live)
           /\ CASE E.e = "Meta" -> TRUE
@@ -93,7 +102,7 @@ TOther == /\ E.e \notin (Callbacks \cup {"Result", "Case", "Crash", "Hang", "Thr
                [] OTHER -> Bad("event")
 
 Init == l = 1 /\ cur = NoCase /\ st = ProtoInit(0, 0) /\ k = 0 /\ live = FALSE
-Next == l <= Len(Lines) /\ (TCase \/ TEvent \/ TEasy \/ TCrash \/ TOther)
+Next == l <= Len(Lines) /\ (TCase \/ TEvent \/ TEasy \/ TCApi \/ TCrash \/ TOther)
 Spec == Init /\ [][Next]_vars
 Finished == (l = Len(Lines) + 1) => PrintT(<<"DONE", ToJson([n |-> Len(Lines)])>>)
 =============================================================================
